@@ -756,6 +756,63 @@ fn elgamal_challenge(b: &Bls, pk: &Pt, h: &Pt, c1: &Pt, c2: &Pt, r1: &Pt, r2: &P
     t.challenge_bytes(b"challenge", &mut ch);
     Scalar::from_bytes_wide(&ch)
 }
+/// Near-misses of the documented Fiat-Shamir transcript (labels L0..L6 = base point, pk, generator, c1, c2, r1, r2 over the
+/// items I0..I6 in that order): each variant is the list of (label index, item index) pairs that get absorbed, plus
+/// whether the leading "dst" message is kept. What a "legacy layout" / "compatibility" branch of a verifier would accept.
+pub fn elgamal_transcript_variants() -> Vec<(String, bool, Vec<(usize, usize)>)> {
+    let full: Vec<(usize, usize)> = (0..7).map(|i| (i, i)).collect();
+    let mut v = vec![];
+    for i in 0..7 {
+        let mut p = full.clone();
+        p.remove(i);
+        v.push((format!("pair {} dropped", i), true, p));
+        // one label removed, the rest zipped against all items (labels shift, the last item is never absorbed)
+        let labels: Vec<usize> = (0..7).filter(|l| *l != i).collect();
+        v.push((format!("label {} removed, zipped", i), true, labels.iter().enumerate().map(|(k, l)| (*l, k)).collect()));
+        // one item removed, labels zipped against the remaining items
+        let items: Vec<usize> = (0..7).filter(|l| *l != i).collect();
+        v.push((format!("item {} removed, zipped", i), true, items.iter().enumerate().map(|(k, it)| (k, *it)).collect()));
+        for j in 0..7 {
+            if i != j {
+                let mut p = full.clone();
+                p[i] = (i, j);
+                v.push((format!("slot {} absorbs item {}", i, j), true, p));
+            }
+        }
+    }
+    for i in 0..6 {
+        let mut p = full.clone();
+        p.swap(i, i + 1);
+        v.push((format!("pairs {} and {} swapped", i, i + 1), true, p));
+    }
+    v.push(("dst message dropped".into(), false, full));
+    v
+}
+fn elgamal_challenge_variant(b: &Bls, items: &[Pt; 7], with_dst: bool, pairs: &[(usize, usize)]) -> Scalar {
+    const LABELS: [&[u8]; 7] = [b"base point", b"pk", b"generator", b"c1", b"c2", b"r1", b"r2"];
+    let _ = b;
+    let mut t = merlin::Transcript::new(b"ElGamalProof");
+    if with_dst {
+        t.append_message(b"dst", ELGAMAL_SALT);
+    }
+    for (l, i) in pairs {
+        t.append_message(LABELS[*l], &items[*i].to_bytes());
+    }
+    let mut ch = [0u8; 64];
+    t.challenge_bytes(b"challenge", &mut ch);
+    Scalar::from_bytes_wide(&ch)
+}
+/// An honest prover's proof, except that the challenge is derived over a variant transcript: it satisfies both
+/// verification equations for ITS challenge, which is not the documented one — a correct verifier refuses it.
+pub fn elgamal_prove_variant(b: &Bls, pk: &Pt, h: &Pt, m: &Scalar, blind: &Scalar, r: &Scalar, with_dst: bool, pairs: &[(usize, usize)]) -> ElGamalProofRef {
+    let p = b.pk_gen();
+    let c1 = p.mul(blind);
+    let c2 = pk.mul(blind).add(&h.mul(m));
+    let r1 = p.mul(r);
+    let r2 = pk.mul(r).add(&h.mul(blind));
+    let c = elgamal_challenge_variant(b, &[p, *pk, *h, c1, c2, r1, r2], with_dst, pairs);
+    ElGamalProofRef { c1, c2, message_proof: blind + c * m, blinder_proof: r + c * blind, challenge: c }
+}
 pub fn elgamal_prove(b: &Bls, pk: &Pt, h: &Pt, m: &Scalar, blind: &Scalar, r: &Scalar) -> ElGamalProofRef {
     let p = b.pk_gen();
     let c1 = p.mul(blind);
